@@ -9,7 +9,7 @@
    evaluated even when the visitor failed), so an unpositioned error carries the reader state: [TUnpos k s].
    This is the extension of [res] this file needs; [lift] embeds [res]. *)
 From SJ Require Import Base.Bytes Base.Utf8 Base.FloatB Gen.Tables
-  Model.Read Model.Str Model.Num Model.Value Model.De Model.Ignore Model.Ty Extract.Driver.
+  Model.Read Model.Str Model.Num Model.NumF32 Model.Value Model.De Model.Ignore Model.Ty Extract.Driver.
 From Flocq Require Import Core BinarySingleNaN.
 Open Scope N_scope.
 
@@ -139,6 +139,22 @@ Definition deserialize_number (E : env) (visit : pnum -> st -> tres (dval * st))
        else if is_digit b then let^ (p, s2) := parse_integer E true s1 in visit p s2
        else peek_invalid_type E s1)
   end.
+
+(* do_deserialize_f32 (float_roundtrip builds): deserialize_number with `single_precision` set *)
+Definition deserialize_number_s (E : env) (visit : pnum -> st -> tres (dval * st)) (s : st) : tres (dval * st) :=
+  let^ (o, s1) := parse_whitespace E s in
+  match o with
+  | None => lift (peek_error E s1 EofWhileParsingValue)
+  | Some b =>
+    fix_position E
+      (if b =? 45 then let^ (p, s2) := parse_integer_s E false (discard s1) in visit p s2
+       else if is_digit b then let^ (p, s2) := parse_integer_s E true s1 in visit p s2
+       else peek_invalid_type E s1)
+  end.
+
+(* deserialize_f32 *)
+Definition deserialize_f32 (E : env) (s : st) : tres (dval * st) :=
+  if float_roundtrip (cf E) then deserialize_number_s E visit_f32 s else deserialize_number E visit_f32 s.
 
 (* str::parse::<i128> / <u128> on the scanned buffer ([-] digits): value must fit (DESIGN.md A.8) *)
 Definition parse_i128 (neg : bool) (digits : bytes) : option Z :=
@@ -402,7 +418,7 @@ Fixpoint de_typed (fuel : nat) (E : env) (t : ty) (s : st) {struct fuel} : tres 
     | TRaw => deserialize_raw E s
     | TBool => deserialize_bool E s
     | TInt it => deserialize_int E it s
-    | TF32 => deserialize_number E visit_f32 s
+    | TF32 => deserialize_f32 E s
     | TF64 => deserialize_number E visit_f64 s
     | TChar => deserialize_str E visit_char s
     | TStr => deserialize_str E visit_string s
@@ -552,7 +568,7 @@ with de_key (fuel : nat) (E : env) (k : kty) (s : st) {struct fuel} : tres (dval
     | KStr => let^ (str, borrowed, s2) := parse_str E (discard s) in visit_string str borrowed s2
     | KChar => let^ (str, borrowed, s2) := parse_str E (discard s) in visit_char str borrowed s2
     | KInt it => numeric_key E (deserialize_int E it) s
-    | KF32 => numeric_key E (deserialize_number E visit_f32) s
+    | KF32 => numeric_key E (deserialize_f32 E) s
     | KF64 => numeric_key E (deserialize_number E visit_f64) s
     | KBool => key_bool E s
     | KOption k1 => tmap DSome (de_key f E k1 s)
@@ -566,7 +582,7 @@ with de_key (fuel : nat) (E : env) (k : kty) (s : st) {struct fuel} : tres (dval
     end
   end.
 
-(* the f32 target under float_roundtrip parses with `single_precision` (lexical::<f32>): not modelled *)
+(* does the type program mention f32 (whose parsing differs under float_roundtrip: Model/NumF32.v)? *)
 Fixpoint kty_has_f32 (k : kty) : bool :=
   match k with
   | KF32 => true
